@@ -87,6 +87,17 @@ impl Part for Projection {
         let part = expand_items(&ptext);
         let (fi, pi) = match (&full, &part) {
             (Exp::Ok { items: a, .. }, Exp::Ok { items: b, .. }) => (a, b),
+            // the instructions that concern only the other counterparts make the whole derive fail: the impls for this
+            // counterpart are then not the ones its own instructions generate
+            (Exp::Other(crate::xp::Outcome::Err(msgs)), Exp::Ok { .. }) => {
+                labels.push("rejected-only-with-others-present".into());
+                return CaseReport {
+                    key: text.clone(),
+                    nontrivial: rd > 0 && rt > 0,
+                    labels,
+                    verdict: ctx.fail_or_known("C06", None, format!("the derive is rejected ({}) although the instructions concerning counterpart {} alone are accepted", msgs.iter().skip(1).take(2).cloned().collect::<Vec<_>>().join("; "), keep), json!({"input": text, "projected": ptext, "counterpart": keep, "diagnostics": msgs})),
+                };
+            }
             _ => {
                 labels.push("not-both-accepted".into());
                 return CaseReport { key: text, nontrivial: false, labels, verdict: Verdict::Pass };
